@@ -8,8 +8,12 @@ import vlib, props
 def main():
     os.makedirs(os.path.join(vlib.VERIF, "evidence"), exist_ok=True)
     jobs = []
+    import json
+    with open(os.path.join(vlib.VERIF, "MANIFEST.json")) as fh:
+        claimed = [c["property_id"] for c in json.load(fh)["checks"]]
     for pid, spec in sorted(props.SPECS.items()):
-        jobs.append(pid)
+        if pid in claimed:
+            jobs.append(pid)
     # libs first (parallel across configs), then drivers via --build-only
     configs = set()
     for pid in jobs:
